@@ -154,6 +154,19 @@ DynHashed    == FieldNames(DynTx, {"yes", "no"})
 HeaderSignedWithFee == FieldNames(Header, {"yes", "fee"})
 HeaderSignedNoFee   == FieldNames(Header, {"yes"})
 
+\* ---- boundary VALUES of the base objects on which every signed field is perturbed ---------------------------------
+\* The fields below gate other behaviour (trimming of the extension, presence of the base fee, zero integers encode as
+\* the empty string, the empty clause list), so id binding has to hold for EVERY combination of them.  A base fee of
+\* zero is still a carried base fee: "absent" is the only value for which the extension is unsigned.
+HeaderBases == [baseFee : {"absent", "zero", "one", "large"}, alpha : {"empty", "nonempty"}, com : BOOLEAN,
+                gas : {"zero", "nonzero"}]                                   \* gas: gasLimit and gasUsed
+HeaderSignedFor(base) == IF base.baseFee = "absent" THEN HeaderSignedNoFee ELSE HeaderSignedWithFee
+TxBases == [type : {"legacy", "dynfee"}, fees : {"zero", "nonzero"},          \* maxFeePerGas, maxPriorityFeePerGas, gasPriceCoef
+            expiration : {"zero", "nonzero"}, nonce : {"zero", "nonzero"}, clauses : {"empty", "two"},
+            dependsOn : {"nil", "set"}, delegated : BOOLEAN]
+TxSignedFor(base) == IF base.type = "legacy" THEN LegacySigned ELSE DynSigned
+TxHashedFor(base) == IF base.type = "legacy" THEN LegacyHashed ELSE DynHashed
+
 (* ------------------------------------------------------------------------------------------------------------- *)
 (* Decode                                                                                                          *)
 (* ------------------------------------------------------------------------------------------------------------- *)
@@ -363,6 +376,13 @@ Encode(kind, v) ==
     [] kind = "block"  -> Enc(Block, v)
     [] kind = "rcbin"  -> EncBinary(Receipt, Receipt, v)
     [] kind = "rcrlp"  -> Enc(RcItem, v)
+
+\* preimage of a header's signing hash: the encodings of the signed fields in order (header.go signingFields); the
+\* extension belongs to it exactly when the header carries a base fee - whatever its value
+HeaderPreimage(v) ==
+  Flat([i \in 1..Len(Header.f) |->
+          IF Header.f[i].sig = "yes" \/ (Header.f[i].sig = "fee" /\ v[i].hasfee) THEN Enc(Header.f[i].s, v[i]) ELSE <<>>],
+       1, Len(Header.f))
 
 \* the property
 RoundTrips(kind, x) == LET d == Decode(kind, x) IN d.ok => Encode(kind, d.v) = x
